@@ -30,6 +30,9 @@ def rpath(r, maxlen=8, allow_slash=True):
         p = p + '-----'
     elif sum(map(ord, p)) % 13 == 1:
         p = '-----' + p.replace('/', '_') + '-----'
+    # a literal backslash followed by what looks like the rest of an escape: written as \x5C + that text, read back as itself
+    elif sum(map(ord, p)) % 13 in (2, 3):
+        p = p + '\\' + ['u0041', 'U00000041', 'x41', 'u00e9z', 'x5Cx41', 'U0001F600', 'u005C', 'x'][len(p) % 8] + ('' if sum(map(ord, p)) % 2 else 'b')
     return p
 
 
